@@ -42,7 +42,8 @@ struct RunStats {
 
 struct RunResult {
   Verdict v;
-  uint64_t event_hash = 0;
+  uint64_t event_hash = 0;  // observations + logical time + schedule: equal iff the execution was the same
+  uint64_t obs_hash = 0;    // observations only: what the callers could see (return values, offsets, bytes, counts, rax, outputs)
   std::vector<uint64_t> task_hashes;  // per caller task: hash of everything that caller observed
   std::vector<long> task_steps;       // fine mode: yield points passed by each task
   RunStats st;
